@@ -292,6 +292,7 @@ KR_VOCAB = [
     V(r"basins_count\(\)", "nbasins"),
     V(r"m_edges\.size\(\)", "m_edges_n"),
     V(r"m_tree\.size\(\)", "m_tree_n"),
+    V(r"m_edges_indices\.size\(\)", "m_edges_indices_n"),
     V(r"m_tree\.reserve\(([^;]*)\);", r"FSL_RESERVE(\1);"),
     V(r"m_tree\.clear\(\)", "m_tree_n = 0"),
     V(r"m_tree\.push_back\(([^()]+)\)", r"FSL_VSZ_PUSH(m_tree, m_tree_n, m_tree_cap, \1)"),
